@@ -500,7 +500,8 @@ TIERS = {
                       dict(cfg="MC_MxFormula_kf.cfg", workers=1)]),
     "thorough": dict(mbt="MBT_MxFormula_thorough.cfg",
                      mc=[dict(cfg="MC_MxFormula_thorough.cfg", workers=8),
-                         dict(cfg="MC_MxFormula_deep.cfg", coverage=True, workers=6),
+                         dict(cfg="MC_MxFormula_deep.cfg", workers=5),
+                         dict(cfg="MC_MxFormula_quick.cfg", coverage=True, workers=2),
                          dict(cfg="MC_MxFormula_kf.cfg", workers=1)]),
 }
 
